@@ -53,23 +53,23 @@ fn plan(prop: &str, thorough: bool, seed: u64) -> Plan {
     };
     let mut p = Plan { tasks: vec![], scenarios: true, marker_matrix: false, inst_matrix: false, integrality: false, modify_matrix: false, version_matrix: false };
     match prop {
-        "C01" => { let nm = if thorough { 3000 } else { 300 }; for i in 0..nm { tasks.push(Task::Migration(seed * 77 + i)); } add(&TRADE, 500, &mut tasks); add(&ROLES, 200, &mut tasks); add(&GRIND, 150, &mut tasks); add(&DEEP, 30, &mut tasks); add(&BIG, 100, &mut tasks); add(&HOSTILE, 150, &mut tasks); add(&LEGACY, 60, &mut tasks); p.marker_matrix = true; }
-        "C02" => { let nm = if thorough { 3000 } else { 300 }; for i in 0..nm { tasks.push(Task::Migration(seed * 77 + i)); } add(&TRADE, 500, &mut tasks); add(&ROLES, 300, &mut tasks); add(&GRIND, 200, &mut tasks); add(&BIG, 100, &mut tasks); p.marker_matrix = true; }
-        "C03" => { add(&TRADE, 300, &mut tasks); add(&HOSTILE, 300, &mut tasks); add(&GRIND, 60, &mut tasks); add(&BIG, 60, &mut tasks); add(&LEGACY, 40, &mut tasks); }
-        "C04" => { let nm = if thorough { 3000 } else { 300 }; for i in 0..nm { tasks.push(Task::Migration(seed * 77 + i)); } add(&TRADE, 350, &mut tasks); add(&ROLES, 150, &mut tasks); add(&GRIND, 200, &mut tasks); add(&HOSTILE, 100, &mut tasks); add(&BIG, 60, &mut tasks); add(&LEGACY, 60, &mut tasks); p.marker_matrix = true; }
+        "C01" => { add(&NARROW, 60, &mut tasks); let nm = if thorough { 3000 } else { 300 }; for i in 0..nm { tasks.push(Task::Migration(seed * 77 + i)); } add(&TRADE, 500, &mut tasks); add(&ROLES, 200, &mut tasks); add(&GRIND, 150, &mut tasks); add(&DEEP, 30, &mut tasks); add(&BIG, 100, &mut tasks); add(&HOSTILE, 150, &mut tasks); add(&LEGACY, 60, &mut tasks); p.marker_matrix = true; }
+        "C02" => { add(&NARROW, 60, &mut tasks); let nm = if thorough { 3000 } else { 300 }; for i in 0..nm { tasks.push(Task::Migration(seed * 77 + i)); } add(&TRADE, 500, &mut tasks); add(&ROLES, 300, &mut tasks); add(&GRIND, 200, &mut tasks); add(&BIG, 100, &mut tasks); p.marker_matrix = true; }
+        "C03" => { add(&NARROW, 60, &mut tasks); add(&TRADE, 300, &mut tasks); add(&HOSTILE, 300, &mut tasks); add(&GRIND, 60, &mut tasks); add(&BIG, 60, &mut tasks); add(&LEGACY, 40, &mut tasks); }
+        "C04" => { add(&NARROW, 60, &mut tasks); let nm = if thorough { 3000 } else { 300 }; for i in 0..nm { tasks.push(Task::Migration(seed * 77 + i)); } add(&TRADE, 350, &mut tasks); add(&ROLES, 150, &mut tasks); add(&GRIND, 200, &mut tasks); add(&HOSTILE, 100, &mut tasks); add(&BIG, 60, &mut tasks); add(&LEGACY, 60, &mut tasks); p.marker_matrix = true; }
         "C05" => { add(&TRADE, 120, &mut tasks); add(&ROLES, 120, &mut tasks); add(&HOSTILE, 120, &mut tasks); }
-        "C06" => { let nm = if thorough { 3000 } else { 300 }; for i in 0..nm { tasks.push(Task::Migration(seed * 77 + i)); } add(&TRADE, 400, &mut tasks); add(&GRIND, 150, &mut tasks); add(&DEEP, 20, &mut tasks); add(&LEGACY, 150, &mut tasks); add(&BIG, 60, &mut tasks); add(&HOSTILE, 100, &mut tasks); p.marker_matrix = true; }
-        "C07" => { add(&HOSTILE, 700, &mut tasks); add(&TRADE, 150, &mut tasks); add(&BIG, 150, &mut tasks); }
+        "C06" => { add(&NARROW, 60, &mut tasks); let nm = if thorough { 3000 } else { 300 }; for i in 0..nm { tasks.push(Task::Migration(seed * 77 + i)); } add(&TRADE, 400, &mut tasks); add(&GRIND, 150, &mut tasks); add(&DEEP, 20, &mut tasks); add(&LEGACY, 150, &mut tasks); add(&BIG, 60, &mut tasks); add(&HOSTILE, 100, &mut tasks); p.marker_matrix = true; }
+        "C07" => { add(&NARROW, 60, &mut tasks); add(&HOSTILE, 700, &mut tasks); add(&TRADE, 150, &mut tasks); add(&BIG, 150, &mut tasks); }
         "C08" => { add(&TRADE, 500, &mut tasks); add(&HOSTILE, 300, &mut tasks); add(&ROLES, 150, &mut tasks); p.marker_matrix = true; }
-        "C09" => { let nm = if thorough { 3000 } else { 300 }; for i in 0..nm { tasks.push(Task::Migration(seed * 77 + i)); } add(&GRIND, 500, &mut tasks); add(&TRADE, 300, &mut tasks); add(&BIG, 100, &mut tasks); add(&ROLES, 100, &mut tasks); add(&HOSTILE, 200, &mut tasks); }
+        "C09" => { add(&NARROW, 60, &mut tasks); let nm = if thorough { 3000 } else { 300 }; for i in 0..nm { tasks.push(Task::Migration(seed * 77 + i)); } add(&GRIND, 500, &mut tasks); add(&TRADE, 300, &mut tasks); add(&BIG, 100, &mut tasks); add(&ROLES, 100, &mut tasks); add(&HOSTILE, 200, &mut tasks); }
         "C10" => { add(&TRADE, 400, &mut tasks); add(&HOSTILE, 150, &mut tasks); add(&GRIND, 80, &mut tasks); p.marker_matrix = true; }
-        "C11" => { add(&DEEP, 60, &mut tasks); add(&TRADE, 400, &mut tasks); add(&HOSTILE, 200, &mut tasks); add(&LEGACY, 50, &mut tasks); }
+        "C11" => { add(&NARROW, 60, &mut tasks); add(&DEEP, 60, &mut tasks); add(&TRADE, 400, &mut tasks); add(&HOSTILE, 200, &mut tasks); add(&LEGACY, 50, &mut tasks); }
         "C12" => { let mut m = TRADE.clone(); m.name = "modify-heavy"; m.modify_pct = 30; add(&m, 400, &mut tasks); let mut gm = GRIND.clone(); gm.name = "grind-modify"; gm.modify_pct = 20; add(&gm, 150, &mut tasks); let mut hm = HOSTILE.clone(); hm.modify_pct = 30; add(&hm, 200, &mut tasks); p.modify_matrix = true; }
         "C13" => { add(&TRADE, 60, &mut tasks); p.inst_matrix = true; p.integrality = true; }
         "C14" => { let n = if thorough { 20000 } else { 2000 }; for i in 0..n { tasks.push(Task::Migration(seed * 77 + i)); } for i in 0..n / 3 { tasks.push(Task::RandomLogs(seed * 131 + i)); } p.version_matrix = true; }
         "C15" => { let n = if thorough { 28000 } else { 2800 }; for i in 0..n { tasks.push(Task::Migration(seed * 77 + i)); } for i in 0..n / 2 { tasks.push(Task::RandomLogs(seed * 131 + i)); } p.version_matrix = true; }
         "C16" => { add(&TRADE, 300, &mut tasks); add(&LEGACY, 100, &mut tasks); add(&HOSTILE, 100, &mut tasks); }
-        "C17" => { add(&TRADE, 500, &mut tasks); add(&GRIND, 200, &mut tasks); add(&ROLES, 150, &mut tasks); add(&HOSTILE, 100, &mut tasks); let n = if thorough { 8000 } else { 800 }; for i in 0..n { tasks.push(Task::Migration(seed * 77 + i)); } p.marker_matrix = true; }
+        "C17" => { add(&NARROW, 60, &mut tasks); add(&TRADE, 500, &mut tasks); add(&GRIND, 200, &mut tasks); add(&ROLES, 150, &mut tasks); add(&HOSTILE, 100, &mut tasks); let n = if thorough { 8000 } else { 800 }; for i in 0..n { tasks.push(Task::Migration(seed * 77 + i)); } p.marker_matrix = true; }
         _ => { add(&TRADE, 200, &mut tasks); add(&HOSTILE, 100, &mut tasks); add(&GRIND, 60, &mut tasks); add(&BIG, 40, &mut tasks); add(&LEGACY, 40, &mut tasks); add(&DEEP, 10, &mut tasks); for i in 0..100 { tasks.push(Task::Migration(seed * 77 + i)); } p.marker_matrix = true; p.inst_matrix = true; p.modify_matrix = true; p.version_matrix = true; p.integrality = true; }
     }
     if matches!(prop, "C01" | "C02" | "C03" | "C04" | "C05" | "C06" | "C07" | "C08" | "C09" | "C10" | "C11" | "C16" | "C17") {
